@@ -249,6 +249,15 @@ def mk_app(fn, args=(), kw=()):
             return a if c.value else b
         if a == b:
             return a
+        # canonical polarity: where(not c, a, b) = where(c, b, a); an equality test selects like the swapped inequality test
+        if isinstance(c, App) and c.fn == "not" and len(c.args) == 1:
+            return mk_app("where", [c.args[0], b, a])
+        if isinstance(c, App) and c.fn == "eq0":
+            return mk_app("where", [App("ne0", c.args), b, a])
+        # a guarded quotient selected under its own guard is the plain quotient: where(g, divide(n, d, out=f, where=g), e)
+        if isinstance(a, App) and a.fn == "gdiv" and len(a.args) == 4 and a.args[3] == c:
+            from .terms import div as _div
+            return App("where", (c, _div(a.args[0], a.args[1]), b))
     return App(fn, args, kw)
 
 
